@@ -45,6 +45,7 @@ func TestWorker(t *testing.T) {
 		"C41/faulty":  func(r *core.Run) { run(r, modeFaulty) },
 		"C41/corrupt": func(r *core.Run) { run(r, modeCorrupt) },
 		"C41/collide": func(r *core.Run) { run(r, modeCollide) },
+		"C41/fresh":   func(r *core.Run) { run(r, modeFresh) },
 	}})
 }
 
@@ -54,13 +55,13 @@ const (
 	modeClean   mode = iota // no loss / duplication / reordering / corruption; stalls, sizes, MTUs, path changes
 	modeFaulty              // frame drop / dup / reorder / delay, send errors, tunnel errors, path changes
 	modeCorrupt             // modeFaulty plus truncation, bit flips and garbage frames
+	modeFresh               // like clean, but long runs (2000-3000 frames, small frames) on a frame buffer pool re-created for the run: every buffer of the pool is recycled within the run
 	modeCollide             // no network faults at all; path changes at instants that give the new sender the stream id of an earlier one
 )
 
 const (
-	maxOutstanding = 16   // assumption: packets written to one sender between two of its idle points
-	frameBudget    = 1400 // frames per run after which no new packets are written
-	hdrLen         = 16   // SIG frame header (doc/sig.rst)
+	maxOutstanding = 16 // assumption: packets written to one sender between two of its idle points
+	hdrLen         = 16 // SIG frame header (doc/sig.rst)
 )
 
 var (
@@ -78,11 +79,11 @@ type sim struct {
 	mode mode
 	t0   time.Time
 
-	nw      *frameNet
-	tun     *tun
-	cnt     *counterSet
-	sess    *dataplane.Session
-	sessID  uint8
+	nw          *frameNet
+	tun         *tun
+	cnt         *counterSet
+	sess        *dataplane.Session
+	sessID      uint8
 	srvDone     atomic.Bool
 	exitWorkers atomic.Bool
 	exitServer  atomic.Bool
@@ -98,22 +99,26 @@ type sim struct {
 	rawLen  int
 	minMTU  int // smallest path MTU the sender accepts in this configuration (found by probing)
 
-	released   int
-	delivered  int
-	nEmitted   int
-	lastDrain  time.Time
-	anyTaint   bool
-	strictOnly int // faulty modes: serial of the stream the clean oracle applies to (tail), else -1
-	sizeBias   int
-	single     bool // the run has one stream only (no path operations)
-	collided   bool // campaign collide: two senders were given the same stream id
-	mtuBias    int
+	released    int
+	delivered   int
+	nEmitted    int
+	lastDrain   time.Time
+	anyTaint    bool
+	strictOnly  int // faulty modes: serial of the stream the clean oracle applies to (tail), else -1
+	sizeBias    int
+	single      bool // the run has one stream only (no path operations)
+	frameBudget int  // frames per run after which no new packets are written
+	pktBudget   int
+	collided    bool // campaign collide: two senders were given the same stream id
+	mtuBias     int
 }
 
 func (s *sim) now() time.Duration { return time.Since(s.t0) }
 
 // faultFree: the campaign injects no network fault at all.
-func (s *sim) faultFree() bool { return s.mode == modeClean || s.mode == modeCollide }
+func (s *sim) faultFree() bool {
+	return s.mode == modeClean || s.mode == modeCollide || s.mode == modeFresh
+}
 
 // ---- construction ----
 
@@ -145,7 +150,13 @@ func (s *sim) guard(what string, f func()) bool {
 
 func (s *sim) start() {
 	r := s.r
+	s.frameBudget, s.pktBudget = 1400, 300
+	if s.mode == modeFresh {
+		s.frameBudget, s.pktBudget = 3000, 900
+		poolDirty = true // this run gets a pool of its own
+	}
 	preparePool()
+	resetStreamIDs()
 	s.t0 = time.Now()
 	s.lastDrain = s.t0
 	s.cur = -1
@@ -308,6 +319,9 @@ func mtuClass(delta int) int {
 
 func (s *sim) drawDelta() int {
 	r := s.r
+	if s.mode == modeFresh {
+		return r.Range("mtu-delta-small", 0, 80)
+	}
 	cl := r.Choice("mtu-class", 8)
 	if cl >= 6 {
 		cl = []int{1, 2, 3, 1}[s.mtuBias] // per-run favourite
@@ -378,6 +392,9 @@ func (s *sim) drawSize(v6 bool, capEst int) int {
 	if cl >= 6 {
 		cl = []int{1, 3, 5, 2}[s.sizeBias]
 	}
+	if s.mode == modeFresh && cl >= 3 {
+		cl = []int{2, 5, 1}[cl%3] // many packets of a few frames each
+	}
 	var n int
 	switch cl {
 	case 0:
@@ -400,7 +417,7 @@ func (s *sim) drawSize(v6 bool, capEst int) int {
 		n = 9000
 	}
 	// keep the run affordable: a packet may not use more than what is left of the frame budget
-	if left := frameBudget - s.released; n/capEst > left {
+	if left := s.frameBudget - s.released; n/capEst > left {
 		n = lo
 	}
 	return n
@@ -988,6 +1005,9 @@ func (s *sim) drainAll(lossy bool) bool {
 func (s *sim) script() {
 	r := s.r
 	nops := r.Range("nops", 12, 260)
+	if s.mode == modeFresh {
+		nops = r.Range("nops-long", 5000, 9000)
+	}
 	wW := []int{4, 1, 8, 2}[r.Choice("w-write", 4)]
 	wR := []int{2, 1, 8, 4}[r.Choice("w-release", 4)]
 	wD := []int{2, 1, 8, 4}[r.Choice("w-deliver", 4)]
@@ -1006,7 +1026,7 @@ func (s *sim) script() {
 	}
 	for op := 0; op < nops && !r.Failed(); op++ {
 		pend := s.nw.snapshot()
-		canW := s.released < frameBudget && len(s.pkts) < 300 && (s.cur < 0 || s.strs[s.cur].outst < maxOutstanding)
+		canW := s.released < s.frameBudget && len(s.pkts) < s.pktBudget && (s.cur < 0 || s.strs[s.cur].outst < maxOutstanding)
 		type act struct {
 			k byte
 			w int
@@ -1024,7 +1044,7 @@ func (s *sim) script() {
 		if wT > 0 {
 			acts = append(acts, act{'T', wT})
 		}
-		if wP > 0 && s.released < frameBudget {
+		if wP > 0 && s.released < s.frameBudget {
 			acts = append(acts, act{'P', wP})
 		}
 		if wG > 0 {
